@@ -377,4 +377,345 @@ struct C02 : World, TtxWorldBase {
 };
 ZSIM_REGISTER_WORLD(C02)
 
+
+// =============================================================== C03 ==========
+// Fault enumeration over a recorded transmission.  Phase 1 records the packet
+// sequence the multiplexer produces (no decoder involved).  Phase 2 decodes it
+// fault-free (the twin) and once per fault; the oracle compares observables
+// using the protection tag of the hit byte.
+struct Obs {
+  std::vector<std::pair<int, int>> events;
+  std::map<int, uint64_t> page_hash;                       // key pgno<<8|subno -> hash of level 1 + 2.5 rendering
+  std::map<int, std::vector<uint16_t>> row0;               // level-1 unicode of row 0
+  std::map<int, std::vector<uint64_t>> row_hash;           // per row hash (both levels)
+  bool operator==(const Obs& o) const { return events == o.events && page_hash == o.page_hash; }
+};
+
+struct C03 : World, TtxWorldBase {
+  const char* name() const override { return "c03"; }
+  const char* property() const override { return "C03"; }
+
+  Plan generate(uint64_t seed, const std::string& tier) override {
+    Plan p; p.world = name(); p.seed = seed;
+    Rng r(seed, "plan");
+    p.knobs["sched_seed"] = (int64_t)(r.next() >> 1);
+    p.knobs["policy"] = (int64_t)r.below(3);
+    p.knobs["pparam"] = (p.knobs["policy"] == 1) ? 30 + (int64_t)r.below(65) : (int64_t)r.below(4);
+    p.knobs["serial"] = (int64_t)r.below(2);
+    p.knobs["frame_max"] = 1 + (int64_t)r.below(8);
+    bool enumerate = r.chance(1, tier == "thorough" ? 40 : 150);
+    p.knobs["enumerate"] = enumerate;
+    int nmag = 1 + (int)r.below(enumerate ? 2 : 4);
+    int total = enumerate ? 3 + (int)r.below(3) : 4 + (int)r.below(12);
+    int car[8][3];
+    for (int m = 0; m < 8; m++) for (int k = 0; k < 3; k++) car[m][k] = (int)r.below(99);
+    for (int i = 0; i < total; i++) {
+      Op o; o.task = (int)r.below((uint64_t)nmag); o.kind = "page";
+      int pg = car[o.task][r.below(1 + r.below(3))];
+      // flags: bit0 X/27/0, bit1 lc, bit2 row 24, bit3 random order, bit4 X/26 enhancement, bit5 X/28/0, bit6 followed by an 8/30 packet
+      int flags = (int)r.below(128);
+      if (enumerate) flags &= ~0; 
+      o.a = {pg, 1 + (int64_t)r.below(3), (int64_t)r.below(8), r.chance(1, 3) ? 1 : 0, (int64_t)r.below(1u << 30), flags, (int64_t)r.below(6), enumerate ? 1 + (int64_t)r.below(5) : (int64_t)r.below(24)};
+      p.ops.push_back(o);
+    }
+    if (!enumerate) {
+      int nf = 1 + (int)r.below(3);
+      for (int i = 0; i < nf; i++) {
+        Op f; f.task = 8; f.kind = "fault";
+        // kind: 0 single bit, 1 two bits in one byte, 2 two bits in different bytes, 3 burst, 4 drop packet
+        f.a = {(int64_t)r.below(5), (int64_t)r.below(1000), (int64_t)r.below(336), (int64_t)r.below(336), 2 + (int64_t)r.below(15)};
+        p.ops.push_back(f);
+      }
+    }
+    return p;
+  }
+
+  struct Rec { ttx::Packet pk; int mag; int page_seq; bool page_has_x26; };
+  std::set<int> transmitted;  // pgno<<8|subno
+
+  // ---- phase 1: record the transmission
+  void record(const Plan& plan, RunCtx& c, std::vector<Rec>& out) {
+    bool serial = plan.knob("serial") & 1;
+    Sched sched(c, (uint64_t)plan.knob("sched_seed", (int64_t)plan.seed), (Policy)(plan.knob("policy") % 3), (int)plan.knob("pparam"));
+    std::vector<std::vector<const Op*>> per(8);
+    for (auto& op : plan.ops) if (op.kind == "page") per[(size_t)(((op.task % 8) + 8) % 8)].push_back(&op);
+    int owner = -1; std::vector<Task*> waiters; int page_seq = 0;
+    auto page_begin = [&](int me) { while (serial && owner != -1 && owner != me) { waiters.push_back(sched.current()); sched.block(); } owner = me; };
+    auto page_end = [&] { owner = -1; for (Task* t : waiters) sched.wake(t); waiters.clear(); };
+    for (int m = 0; m < 8; m++) {
+      if (per[(size_t)m].empty()) continue;
+      sched.spawn("mag" + std::to_string(m), [&, m] {
+        int mag = m ? m : 8; int prev_page = -1;
+        auto hdr = [&](int page, int sub, int nat, bool erase, int seq, bool x26) {
+          int pgno = mag * 256 + page; uint8_t text[32]; header_text(pgno, text);
+          unsigned ctrl = ttx::ctrl_national(nat) | (erase ? ttx::C4_ERASE : 0) | (serial ? ttx::C11_SERIAL : 0);
+          out.push_back({ttx::header(mag, page, sub, ctrl, text), m, seq, x26});
+          transmitted.insert((pgno << 8) | (sub & 0xFF));
+        };
+        for (const Op* op : per[(size_t)m]) {
+          int page = to_bcd((int)(llabs(op->arg(0)) % 99));
+          if (page == prev_page) page = to_bcd((int)((llabs(op->arg(0)) + 1) % 99));
+          prev_page = page;
+          int sub = to_bcd((int)(llabs(op->arg(1)) % 80));
+          if (page & 1) sub = 0; else if (sub == 0) sub = 1;
+          int nat = (int)(llabs(op->arg(2)) % 8); bool erase = op->arg(3) & 1;
+          Rng r((uint64_t)op->arg(4), "content"); int flags = (int)op->arg(5);
+          int seq = page_seq++; bool x26 = flags & 16;
+          page_begin(m);
+          hdr(page, sub, nat, erase, seq, x26);
+          sched.yield();
+          int nrows = (int)(llabs(op->arg(7)) % 24);
+          std::vector<int> ys;
+          for (int y = 1; y <= 23 && (int)ys.size() < nrows; y++) if (r.chance(2, 3)) ys.push_back(y);
+          if (flags & 4) ys.push_back(24);
+          if (flags & 8) for (size_t i = ys.size(); i > 1; i--) std::swap(ys[i - 1], ys[r.below(i)]);
+          int style = (int)(llabs(op->arg(6)) % 6);
+          for (int y : ys) { uint8_t ch[40]; gen_row(r, style, ch); out.push_back({ttx::row(mag, y, ch), m, seq, x26}); sched.yield(); }
+          if (x26) {
+            ttx::Triplet t[13];
+            int row = 1 + (int)r.below(23);
+            t[0] = {40 + row, 0x04, 0};  // set active position
+            for (int k = 1; k < 13; k++) {
+              switch (r.below(4)) {
+                case 0: t[k] = {(int)r.below(40), 0x0F, 0x20 + (int)r.below(0x60)}; break;       // G2 character
+                case 1: t[k] = {(int)r.below(40), 0x10 + (int)r.below(16), 0x41 + (int)r.below(26)}; break;  // diacritical
+                case 2: t[k] = {(int)r.below(40), 0x00, (int)r.below(32)}; break;               // foreground colour
+                default: t[k] = {40 + 1 + (int)r.below(23), 0x04, (int)r.below(40)}; break;       // set active position
+              }
+            }
+            t[12] = {0x3F, 0x1F, 0x7F};  // termination marker
+            out.push_back({ttx::x26(mag, 0, t), m, seq, x26}); sched.yield();
+          }
+          if (flags & 1) {
+            ttx::Link L[6];
+            for (int k = 0; k < 6; k++) { L[k].pgno = (1 + (int)r.below(8)) * 256 + to_bcd((int)r.below(100)); L[k].subno = r.chance(1, 2) ? 0x3F7F : to_bcd((int)r.below(80)); }
+            out.push_back({ttx::x27_0(mag, L, ((flags & 2) ? 8 : 0) | (int)r.below(8)), m, seq, x26}); sched.yield();
+          }
+          if (flags & 32) {
+            uint32_t tr[13];
+            tr[0] = 0;  // page function LOP, coding 0
+            for (int k = 1; k < 13; k++) tr[k] = (uint32_t)r.below(1u << 18);
+            out.push_back({ttx::x28(mag, 0, tr), m, seq, x26}); sched.yield();
+          }
+          page_end();
+          if (flags & 64) {
+            // 8/30 format 2: all Hamming 8/4 protected, status display with parity
+            ttx::Packet p; memset(&p, 0, sizeof p); ttx::mrag(p, 8, 30);
+            p.b[2] = tx::ham84(2); p.tag[2] = ttx::H84;
+            for (int k = 3; k < 22; k++) { p.b[k] = tx::ham84((unsigned)r.below(16)); p.tag[k] = ttx::H84; }
+            for (int k = 22; k < 42; k++) { p.b[k] = tx::odd_parity((uint8_t)(0x20 + r.below(0x5F))); p.tag[k] = ttx::PAR; }
+            out.push_back({p, 0, -1, false});
+          }
+          sched.yield();
+        }
+        page_begin(m);
+        hdr(prev_page == 0x98 ? 0x97 : 0x98, 0, 0, true, page_seq++, false);
+        page_end();
+      });
+    }
+    sched.run(20000000);
+    c.state(sched.interleaving_hash());
+  }
+
+  // ---- phase 2: decode a packet list and observe
+  uint64_t decodes = 0;
+  Obs decode(const std::vector<Rec>& L, int skip, const std::vector<std::pair<int, int>>& flips) {
+    events.clear(); frame.clear(); ts = 5000.0;
+    open_decoder();
+    for (size_t k = 0; k < L.size(); k++) {
+      if ((int)k == skip) continue;
+      uint8_t b[42]; memcpy(b, L[k].pk.b, 42);
+      for (auto& f : flips) if (f.first == (int)k) b[(f.second / 8) % 42] ^= (uint8_t)(1 << (f.second % 8));
+      push(b);
+      if (L[k].pk.y == 0) flush();
+    }
+    flush();
+    decodes++;
+    Obs o; o.events = events;
+    for (int pgno = 0x100; pgno <= 0x8FF; pgno++) {
+      int any; { SutScope ss; any = vbi_is_cached(dec, pgno, VBI_ANY_SUBNO); }
+      if (!any) continue;
+      int hi; { SutScope ss; hi = vbi_cache_hi_subno(dec, pgno); }
+      for (int s = 0; s <= hi && s <= 0x3F7F; s++) {
+        int cached; { SutScope ss; cached = vbi_is_cached(dec, pgno, s); }
+        if (!cached) continue;
+        vbi_page pg; Fnv h; std::vector<uint64_t> rows;
+        for (int lvl = 0; lvl < 2; lvl++) {
+          vbi_bool ok;
+          budget_begin("vbi_fetch_vt_page", 30000000);
+          { SutScope ss; ok = vbi_fetch_vt_page(dec, &pg, pgno, s, lvl ? VBI_WST_LEVEL_2p5 : VBI_WST_LEVEL_1, 25, FALSE); }
+          budget_end();
+          h.u64((uint64_t)ok);
+          if (!ok) continue;
+          if (pg.subno != s && s != 0) continue;  // lookup by key returned another version
+          for (int row = 0; row < 25; row++) {
+            Fnv rh;
+            for (int col = 0; col < 40; col++) {
+              const vbi_char& a = pg.text[row * 41 + col];
+              uint64_t v = (uint64_t)a.unicode | ((uint64_t)a.foreground << 16) | ((uint64_t)a.background << 24) | ((uint64_t)a.size << 32) | ((uint64_t)a.opacity << 40) |
+                           ((uint64_t)a.flash << 48) | ((uint64_t)a.conceal << 49) | ((uint64_t)a.underline << 50) | ((uint64_t)a.bold << 51) | ((uint64_t)a.italic << 52);
+              rh.u64(v);
+              if (lvl == 0 && row == 0) o.row0[(pgno << 8) | (s & 0xFF)].push_back(a.unicode);
+            }
+            h.u64(rh.h); rows.push_back(rh.h);
+          }
+        }
+        o.page_hash[(pgno << 8) | (s & 0xFF)] = h.h;
+        o.row_hash[(pgno << 8) | (s & 0xFF)] = rows;
+      }
+    }
+    { SutScope ss; vbi_decoder_delete(dec); dec = nullptr; }
+    return o;
+  }
+
+  std::string diff(const Obs& a, const Obs& b) {
+    char t[256];
+    if (a.events != b.events) { snprintf(t, sizeof t, "page events differ (%zu vs %zu)", a.events.size(), b.events.size()); return t; }
+    for (auto& kv : a.page_hash) { auto it = b.page_hash.find(kv.first); if (it == b.page_hash.end()) { snprintf(t, sizeof t, "page %x.%x cached only with the fault", kv.first >> 8, kv.first & 255); return t; } if (it->second != kv.second) { snprintf(t, sizeof t, "page %x.%x renders differently", kv.first >> 8, kv.first & 255); return t; } }
+    for (auto& kv : b.page_hash) if (!a.page_hash.count(kv.first)) { snprintf(t, sizeof t, "page %x.%x missing with the fault", kv.first >> 8, kv.first & 255); return t; }
+    return "";
+  }
+
+  bool only_transmitted(const Obs& o, RunCtx& c, const char* what) {
+    for (auto& kv : o.page_hash) if (!transmitted.count(kv.first)) { c.fail("oracle:c03-wrong-number", "%s: page %x.%x is cached but was never transmitted", what, kv.first >> 8, kv.first & 255); return false; }
+    for (auto& e : o.events) if (!transmitted.count((e.first << 8) | (e.second & 0xFF))) { c.fail("oracle:c03-wrong-number", "%s: page event %x.%x for a page never transmitted", what, e.first, e.second); return false; }
+    return true;
+  }
+
+  // checks one fault (list of flips in packet k, or drop) against the twins
+  bool check_fault(const std::vector<Rec>& L, const Obs& twin, std::map<int, Obs>& without, int k, const std::vector<int>& bits, bool drop, RunCtx& c) {
+    std::vector<std::pair<int, int>> flips;
+    for (int b : bits) flips.push_back({k, b});
+    char what[160];
+    snprintf(what, sizeof what, "packet %d (mag %d Y %d%s) bits %d%s%s", k, L[(size_t)k].pk.mag, L[(size_t)k].pk.y, L[(size_t)k].pk.designation >= 0 ? " X/dc" : "", bits.empty() ? -1 : bits[0],
+             bits.size() > 1 ? (",.. x" + std::to_string(bits.size())).c_str() : "", drop ? " dropped" : "");
+    Obs o = decode(L, drop ? k : -1, flips);
+    std::map<int, int> per_byte; for (int b : bits) per_byte[(b / 8) % 42]++;
+    int worst = 0; for (auto& kv : per_byte) worst = std::max(worst, kv.second);
+    // clause 4 holds "with up to two bit errors per protected byte"; longer bursts are checked for memory safety only
+    if (worst > 2) { c.count("fault_more_than_two_bits_per_byte_safety_only"); return true; }
+    if (!only_transmitted(o, c, what)) return false;
+    if (drop) return true;
+    // classify
+    bool all_single_protected = true, any_double_addr = false, par_hit = false, other = false;
+    const ttx::Packet& pk = L[(size_t)k].pk;
+    bool addr_byte_hit_double = false;
+    for (auto& kv : per_byte) {
+      int tag = pk.tag[kv.first];
+      bool prot = tag == ttx::H84 || tag == ttx::H2418_0 || tag == ttx::H2418_1 || tag == ttx::H2418_2;
+      if (prot && kv.second == 1) continue;
+      all_single_protected = false;
+      bool addr = kv.first < 2 || (pk.y == 0 && kv.first < 10) || (pk.y >= 26 && pk.y <= 29 && kv.first == 2);
+      if (prot && kv.second == 2 && addr) { any_double_addr = true; if (kv.first < 2 || pk.y != 0) addr_byte_hit_double = true; }
+      else if (tag == ttx::PAR && kv.second % 2 == 1) par_hit = true;
+      else other = true;
+    }
+    // several single errors are all corrected only if they hit different protected units (bytes / triplets)
+    if (all_single_protected && bits.size() > 1) {
+      std::set<int> units;
+      for (auto& kv : per_byte) { int tag = pk.tag[kv.first]; int unit = tag == ttx::H84 ? kv.first : kv.first - (tag - ttx::H2418_0); if (!units.insert(unit).second) all_single_protected = false; }
+      if (!all_single_protected) other = true;
+    }
+    if (all_single_protected) {
+      c.count("fault_single_bit_protected");
+      std::string d = diff(o, twin);
+      if (!d.empty()) { c.fail("oracle:c03-single-bit", "%s: one bit error in a Hamming protected byte/triplet changed the result: %s", what, d.c_str()); return false; }
+      return true;
+    }
+    if (other) { c.count("fault_other_unclassified"); return true; }  // mixtures: clause 4 only
+    if (any_double_addr && !par_hit) {
+      if (!addr_byte_hit_double) { c.count("fault_double_header_ctrl"); return true; }  // header page/subcode/control byte: abandons pages in progress; clause 4 only
+      c.count("fault_double_address");
+      if (!without.count(k)) without[k] = decode(L, k, {});
+      std::string d = diff(o, without[k]);
+      if (!d.empty()) { c.fail("oracle:c03-double-address", "%s: packet with an uncorrectable address/designation byte is not ignored: %s", what, d.c_str()); return false; }
+      return true;
+    }
+    if (par_hit && !any_double_addr) {
+      if (pk.y >= 1 && pk.y <= 25) {
+        if (L[(size_t)k].page_has_x26) { c.count("fault_parity_row_x26_page"); return true; }
+        c.count("fault_parity_row");
+        if (!without.count(k)) without[k] = decode(L, k, {});
+        std::string d = diff(o, without[k]);
+        if (!d.empty()) { c.fail("oracle:c03-parity-row", "%s: a row received with a parity error is not ignored as a whole (must keep earlier content or stay blank): %s", what, d.c_str()); return false; }
+        return true;
+      }
+      if (pk.y == 0) {
+        c.count("fault_parity_header_text");
+        // same as the twin except row 0 of pages, where a cell may be blank instead
+        if (o.events != twin.events) { c.fail("oracle:c03-parity-header", "%s: parity error in header text changed the page events", what); return false; }
+        for (auto& kv : twin.row_hash) {
+          auto it = o.row_hash.find(kv.first);
+          if (it == o.row_hash.end()) { c.fail("oracle:c03-parity-header", "%s: page %x.%x missing", what, kv.first >> 8, kv.first & 255); return false; }
+          for (size_t r = 0; r < kv.second.size(); r++) {
+            if ((r % 25) == 0) continue;
+            if (kv.second[r] != it->second[r]) { c.fail("oracle:c03-parity-header", "%s: page %x.%x row %zu changed by a parity error in a header", what, kv.first >> 8, kv.first & 255, r % 25); return false; }
+          }
+          auto& a = twin.row0.at(kv.first); auto& b = o.row0.at(kv.first);
+          for (size_t col = 8; col < a.size() && col < b.size(); col++)
+            if (a[col] != b[col] && b[col] != 0x20) { c.fail("oracle:c03-parity-header", "%s: page %x.%x header column %zu shows U+%04X instead of U+%04X or blank", what, kv.first >> 8, kv.first & 255, col, b[col], a[col]); return false; }
+        }
+        return true;
+      }
+      c.count("fault_parity_other");
+      return true;
+    }
+    c.count("fault_other_unclassified");
+    return true;
+  }
+
+  void run(const Plan& plan, RunCtx& c) override {
+    static bool warmed = false;
+    if (!warmed) { warmed = true; vbi_decoder* d = vbi_decoder_new(); vbi_decoder_delete(d); }
+    alloc_track_reset();
+    ctx = &c; g = this; transmitted.clear(); decodes = 0;
+    frame_max = (int)(plan.knob("frame_max", 4) % 17); if (frame_max < 1) frame_max = 1;
+    std::vector<Rec> L;
+    record(plan, c, L);
+    for (size_t k = 0; k < L.size(); k++) c.log("tx %zu mag %d Y %d", k, L[k].pk.mag, L[k].pk.y);
+    Obs twin = decode(L, -1, {});
+    for (auto& e : twin.events) c.log("twin event %x.%x", e.first, e.second);
+    std::map<int, Obs> without;
+    if (!only_transmitted(twin, c, "fault-free")) { g = nullptr; return; }
+    bool did_enum = false;
+    std::vector<const Op*> faults;
+    for (auto& op : plan.ops) if (op.kind == "fault") faults.push_back(&op);
+    if (!L.empty()) {
+      if (faults.empty() && plan.knob("enumerate")) {
+        did_enum = true;
+        for (size_t k = 0; k < L.size() && !c.failed; k++)
+          for (int b = 0; b < 336 && !c.failed; b++) {
+            if (L[k].pk.tag[b / 8] == ttx::RAW) { c.count("bits_skipped_unprotected"); continue; }
+            check_fault(L, twin, without, (int)k, {b}, false, c);
+          }
+        c.count("enumerated_transmissions");
+      }
+      for (const Op* f : faults) {
+        if (c.failed) break;
+        int kind = (int)(llabs(f->arg(0)) % 5);
+        int k = (int)(llabs(f->arg(1)) % (int64_t)L.size());
+        int b1 = (int)(llabs(f->arg(2)) % 336), b2 = (int)(llabs(f->arg(3)) % 336);
+        std::vector<int> bits;
+        switch (kind) {
+          case 0: bits = {b1}; break;
+          case 1: bits = {b1, (b1 & ~7) | ((b1 + 1 + b2 % 7) & 7)}; break;
+          case 2: bits = {b1, b2}; if (b1 == b2) bits = {b1}; break;
+          case 3: { int n = (int)(llabs(f->arg(4)) % 17); if (n < 2) n = 2; for (int i = 0; i < n && b1 + i < 336; i++) bits.push_back(b1 + i); break; }
+          default: break;
+        }
+        c.count(kind == 4 ? "fault_drop" : kind == 3 ? "fault_burst" : kind == 2 ? "fault_two_bytes" : kind == 1 ? "fault_two_bits_one_byte" : "fault_one_bit");
+        check_fault(L, twin, without, k, bits, kind == 4, c);
+      }
+    }
+    if (!c.failed && alloc_track_available() && alloc_live_blocks() != 0)
+      c.fail("leak", "%zu blocks still allocated after vbi_decoder_delete", alloc_live_blocks());
+    c.count("decodes", (int64_t)decodes);
+    c.count("packets", (int64_t)L.size());
+    c.log("decodes %llu pages %zu", (unsigned long long)decodes, twin.page_hash.size());
+    c.nontrivial = twin.page_hash.size() >= 2 && (did_enum || !faults.empty());
+    g = nullptr;
+  }
+};
+ZSIM_REGISTER_WORLD(C03)
+
 }  // namespace
